@@ -52,13 +52,13 @@ cast, then the `u8 × i8` GEMM reference is applied. -/
 def mmiEntry (da db : Dt) (za zb : Int) (a b : List Int) : Int :=
   dotZ (lhsToU8 da za) (rhsToI8 db zb) (a.map (lhsToU8 da)) (b.map (rhsToI8 db))
 
-/-- The `may_saturate` variant for an `i8` LHS: shift by `−min(0, min a)`; the zero point is
-truncated to `u8` (`as u8`). -/
-def minShift (a : List Int) : Int := - (a.foldl min 0)
+/-- The `may_saturate` variant for an `i8` LHS: the shift is `−min(0, min of the WHOLE LHS tensor)`
+(`matmul.rs`: `tensor.iter().fold(0, min)`); the zero point is truncated to `u8` (`as u8`). -/
+def minShift (lhsTensor : List Int) : Int := - (lhsTensor.foldl min 0)
 
-def mmiEntryMinShift (za zb : Int) (a b : List Int) : Int :=
-  let s := minShift a
-  dotZ ((za + s) % 256) zb (a.map (· + s)) b
+/-- One output element on that path; `lhsTensor` is the whole LHS tensor, `a` one of its rows. -/
+def mmiEntryMinShift (lhsTensor : List Int) (za zb : Int) (a b : List Int) : Int :=
+  dotZ ((za + minShift lhsTensor) % 256) zb (a.map (· + minShift lhsTensor)) b
 
 /-- Zero point of row/column `i`: absent → 0, scalar → broadcast, vector → element `i`. -/
 inductive ZeroPoint where
